@@ -119,10 +119,10 @@ Example C10_ex_rot2 : proper_rotation2 (mkM2 0 (-1) 1 0).
 Proof. unfold proper_rotation2. cbn. repeat split; ring. Qed.
 
 (* --- SOURCE TIE (translator translate/srcfuns.py): the two angle normalisers and the rotation -> angle extractors of
-       EulerAngles.hpp, regenerated on every run from the clang AST of their instantiation at double (gen/SrcFuns.v),
+       EulerAngles.hpp, regenerated on every run from the clang AST of their instantiation at double (gen/SrcFunsC10.v),
        are the model functions b02 / bpi / r2a / r2e of the theorems above --- *)
 From Romea Require Import SrcTieAngles.
-From Romea.gen Require Import SrcFuns.
+From Romea.gen Require Import SrcFunsC10.
 Theorem C10_source_tie_normalisers : forall v,
   src_between0And2Pi ROps v = b02 v /\ src_betweenMinusPiAndPi ROps v = bpi v.
 Proof. intros v. exact (conj (tie_between0And2Pi v) (tie_betweenMinusPiAndPi v)). Qed.
